@@ -1,7 +1,7 @@
 """C10 - sync is idempotent, never edits the truth, and reports changes truthfully."""
 from vf.props import C09, deductive, sync_common as S
 
-KEYS = ["doctrans.conformance:_conform_filename", "doctrans.ast_utils:find_in_ast", "doctrans.ast_utils:annotate_ancestry", "doctrans.emit:file", "doctrans.conformance:ground_truth"]
+KEYS = ["doctrans.conformance:_conform_filename", "vf.contracts.laws:replace_at_location", "doctrans.ast_utils:find_in_ast", "doctrans.ast_utils:annotate_ancestry", "doctrans.emit:file", "doctrans.conformance:ground_truth"]
 
 
 def check(run, record_expected=False):
@@ -12,7 +12,7 @@ def check(run, record_expected=False):
         return ded
     for func, items in sync_ded.c10_items():
         deductive.add_evaluated(run, ded, items, func)
-    results = S.run_projects(run.tier, newline_variants=(True, False))
+    results = S.run_projects(run.tier, newline_variants=(True, False, "blank"))
     n_ok = S.report(run, results, "idem", "idem")
     cov = C09._coverage(ded, results, n_ok,
                         "DEDUCTIVE: on every path of _conform_filename the returned flag equals 'the effect log contains a write to this file' and only the "
